@@ -54,31 +54,62 @@ type rcase struct {
 	Site    string  `json:"site"`
 	Msg     string  `json:"stored_hex"`
 	MsgText string  `json:"stored"`
-	Mask    mt.Mask `json:"read_mask"`
+	// Msg2 is the message later written over the stored one at the Pull sites
+	Msg2     string  `json:"second_hex,omitempty"`
+	Msg2Text string  `json:"second,omitempty"`
+	Mask     mt.Mask `json:"read_mask"`
 }
 
-var sites = []string{"FilterClone", "Filter", "Value.Get", "Collection.Get", "Collection.List", "Value.Pull", "Collection.Pull"}
+var sites = []string{"FilterClone", "Filter", "Value.Get", "Collection.Get", "Collection.List",
+	"Value.Pull", "Collection.Pull", "Collection.Pull+Include", "Collection.PullID"}
+
+func isPull(site string) bool { return strings.Contains(site, "Pull") }
 
 type rout struct {
-	Panic   string
-	Results []proto.Message // every message the read produced (one, or seed + update for Pull)
-	Mutated string          // non-empty: what was mutated
-	Valid   bool            // ResponseFilter.Validate accepted the mask
+	Panic string
+	// Results: every message the read produced, in order (nil entries are absent old/new values).
+	// Raw: the unprojected message each result must be the projection of (for Pull: what the same
+	// scenario delivers without a read mask). Roles name each entry (seed-new, UPDATE-old, ...).
+	Results []proto.Message
+	Raw     []proto.Message
+	Roles   []string
+	Shape   string // sequence of event kinds and ids delivered under the mask
+	Ref     string // ... and without a mask
+	Mutated string // non-empty: what was mutated
+	Valid   bool   // ResponseFilter.Validate accepted the mask
+}
+
+func msgText(m proto.Message) string {
+	if m == nil {
+		return "nil"
+	}
+	return mt.CanonMsg(m)
 }
 
 func (o rout) text() string {
 	if o.Panic != "" {
 		return "panic"
 	}
-	var xs []string
+	xs := []string{"[" + o.Shape + "]"}
 	for _, m := range o.Results {
-		xs = append(xs, mt.CanonMsg(m))
+		xs = append(xs, msgText(m))
 	}
 	return strings.Join(xs, " ")
 }
 
 func (c rcase) decode() proto.Message {
 	m, err := mt.DecodeMsg(c.Msg, rootByName(c.Root).New())
+	if err != nil {
+		panic(err)
+	}
+	return m
+}
+
+func (c rcase) decode2() proto.Message {
+	if c.Msg2 == "" {
+		return rootByName(c.Root).New()
+	}
+	m, err := mt.DecodeMsg(c.Msg2, rootByName(c.Root).New())
 	if err != nil {
 		panic(err)
 	}
@@ -98,22 +129,157 @@ func (c rcase) safe() bool {
 	return true
 }
 
-func recvValue(ch <-chan *resource.ValueChange) *resource.ValueChange {
+const waitFor = 5 * time.Second
+
+// step runs one blocking store operation with a bound (a writer stalled by a subscriber is reported,
+// not waited for).
+func step(what string, f func() error) {
+	done := make(chan error, 1)
+	go func() { done <- f() }()
 	select {
-	case v := <-ch:
-		return v
-	case <-time.After(5 * time.Second):
-		return nil
+	case err := <-done:
+		if err != nil {
+			panic(what + ": " + err.Error())
+		}
+	case <-time.After(waitFor):
+		panic(what + ": timed out")
 	}
 }
 
-func recvColl(ch <-chan *resource.CollectionChange) *resource.CollectionChange {
-	select {
-	case v := <-ch:
-		return v
-	case <-time.After(5 * time.Second):
-		return nil
+// delivered is everything one Pull delivered: the event kinds/ids and the messages in order.
+type delivered struct {
+	shape  []string
+	msgs   []proto.Message
+	roles  []string
+	stored proto.Message // the object that was stored when the subscription started
+	before proto.Message // ... and a copy taken at that moment
+}
+
+func nonEmpty(m proto.Message) bool {
+	n := 0
+	m.ProtoReflect().Range(func(protoreflect.FieldDescriptor, protoreflect.Value) bool { n++; return false })
+	return n > 0
+}
+
+// pullScenario runs the fixed scenario of a Pull site with the given read mask (backpressure on, so
+// every change is delivered, in order) and returns everything that was delivered.
+func (c rcase) pullScenario(mask mt.Mask) delivered {
+	r := rootByName(c.Root)
+	msg, msg2 := c.decode(), c.decode2()
+	ropts := []resource.ReadOption{resource.WithBackpressure(true)}
+	if !mask.Nil {
+		ropts = append(ropts, resource.WithReadMask(mask.FM()))
 	}
+	var d delivered
+	ctx, cancel := context.WithCancel(context.Background())
+	defer cancel()
+	fin := make(chan string, 1)
+	addV := func(kind string, v *resource.ValueChange) {
+		role := kind
+		if v.SeedValue {
+			role = "seed"
+		}
+		d.shape = append(d.shape, role)
+		d.msgs = append(d.msgs, v.Value)
+		d.roles = append(d.roles, role+"-new")
+	}
+	collectValues := func(ch <-chan *resource.ValueChange, n int) {
+		go func() {
+			for i := 0; i < n; i++ {
+				select {
+				case v, ok := <-ch:
+					if !ok {
+						fin <- "stream closed early"
+						return
+					}
+					addV("update", v)
+				case <-time.After(waitFor):
+					fin <- "timed out waiting for an event"
+					return
+				}
+			}
+			fin <- ""
+		}()
+	}
+	collectChanges := func(ch <-chan *resource.CollectionChange, sentinel string) {
+		go func() {
+			for {
+				select {
+				case v, ok := <-ch:
+					if !ok {
+						fin <- "stream closed early"
+						return
+					}
+					if v.Id == sentinel {
+						fin <- ""
+						return
+					}
+					role := v.ChangeType.String()
+					if v.SeedValue {
+						role = "seed"
+					}
+					d.shape = append(d.shape, role+":"+v.Id)
+					d.msgs = append(d.msgs, v.NewValue, v.OldValue)
+					d.roles = append(d.roles, role+"-new", role+"-old")
+				case <-time.After(waitFor):
+					fin <- "timed out waiting for an event"
+					return
+				}
+			}
+		}()
+	}
+	finish := func() {
+		if e := <-fin; e != "" {
+			panic(e)
+		}
+	}
+	switch c.Site {
+	case "Value.Pull":
+		v := resource.NewValue(resource.WithInitialValue(msg))
+		d.stored, d.before = msg, proto.Clone(msg)
+		collectValues(v.Pull(ctx, ropts...), 3)
+		step("Set", func() error { _, err := v.Set(msg2); return err })
+		step("Set", func() error { _, err := v.Set(r.New()); return err })
+		finish()
+	case "Collection.PullID":
+		col := resource.NewCollection()
+		st, err := col.Add("x", msg)
+		if err != nil {
+			panic(err)
+		}
+		d.stored, d.before = st, proto.Clone(st)
+		collectValues(col.PullID(ctx, "x", ropts...), 3)
+		step("Add y", func() error { _, err := col.Add("y", c.decode()); return err })
+		step("Update x", func() error { _, err := col.Update("x", msg2); return err })
+		step("Update y", func() error { _, err := col.Update("y", c.decode2()); return err })
+		step("Update x", func() error { _, err := col.Update("x", r.New()); return err })
+		finish()
+	case "Collection.Pull", "Collection.Pull+Include":
+		col := resource.NewCollection()
+		st, err := col.Add("x", msg)
+		if err != nil {
+			panic(err)
+		}
+		d.stored, d.before = st, proto.Clone(st)
+		if c.Site == "Collection.Pull+Include" {
+			ropts = append(ropts, resource.WithInclude(func(id string, m proto.Message) bool {
+				return id == "zz" || (m != nil && nonEmpty(m))
+			}))
+		}
+		collectChanges(col.Pull(ctx, ropts...), "zz")
+		// UPDATE (or, with the include set: leave = REMOVE, enter = ADD), ADD, REMOVE by Delete
+		step("Update x", func() error { _, err := col.Update("x", r.New()); return err })
+		step("Update x", func() error { _, err := col.Update("x", msg2); return err })
+		step("Add y", func() error { _, err := col.Add("y", c.decode()); return err })
+		step("Update y", func() error { _, err := col.Update("y", c.decode2()); return err })
+		step("Delete y", func() error { _, err := col.Delete("y"); return err })
+		step("Delete x", func() error { _, err := col.Delete("x"); return err })
+		step("Add zz", func() error { _, err := col.Add("zz", c.decode()); return err })
+		finish()
+	default:
+		panic("site " + c.Site)
+	}
+	return d
 }
 
 func (c rcase) runCode() rout {
@@ -128,6 +294,15 @@ func (c rcase) runCode() rout {
 	out.Valid = rf.Validate(msg) == nil
 	var stored proto.Message // the message that must not change
 	panicked, pmsg := lib.Catch(func() {
+		if isPull(c.Site) {
+			ref := c.pullScenario(mt.NilMask())
+			got := c.pullScenario(c.Mask)
+			out.Ref, out.Shape = strings.Join(ref.shape, ","), strings.Join(got.shape, ",")
+			out.Raw, out.Results, out.Roles = ref.msgs, got.msgs, got.roles
+			stored, before = got.stored, got.before
+			return
+		}
+		out.Raw, out.Roles = []proto.Message{proto.Clone(msg)}, []string{"result"}
 		switch c.Site {
 		case "FilterClone":
 			stored = msg
@@ -159,45 +334,6 @@ func (c rcase) runCode() rout {
 			stored = st
 			before = proto.Clone(st)
 			out.Results = col.List(ropts...)
-		case "Value.Pull":
-			v := resource.NewValue(resource.WithInitialValue(msg))
-			stored = msg
-			ctx, cancel := context.WithCancel(context.Background())
-			defer cancel()
-			ch := v.Pull(ctx, append(ropts, resource.WithBackpressure(true))...)
-			seed := recvValue(ch)
-			if seed == nil {
-				panic("no seed value")
-			}
-			out.Results = append(out.Results, seed.Value)
-		case "Collection.Pull":
-			col := resource.NewCollection()
-			st, err := col.Add("x", msg)
-			if err != nil {
-				panic(err)
-			}
-			stored = st
-			before = proto.Clone(st)
-			ctx, cancel := context.WithCancel(context.Background())
-			defer cancel()
-			ch := col.Pull(ctx, append(ropts, resource.WithBackpressure(true))...)
-			seed := recvColl(ch)
-			if seed == nil {
-				panic("no seed value")
-			}
-			out.Results = append(out.Results, seed.NewValue)
-			// an update whose old value is the stored message: the event carries both, filtered
-			done := make(chan error, 1)
-			go func() {
-				_, err := col.Update("x", rootByName(c.Root).New(), resource.WithUpdateMask(nil))
-				done <- err
-			}()
-			ev := recvColl(ch)
-			if ev == nil {
-				panic("no update event")
-			}
-			out.Results = append(out.Results, ev.OldValue)
-			<-done
 		default:
 			panic("site " + c.Site)
 		}
@@ -210,14 +346,6 @@ func (c rcase) runCode() rout {
 		out.Mutated = "stored/passed-in message changed: " + mt.CanonMsg(before) + " -> " + mt.CanonMsg(stored)
 	}
 	return out
-}
-
-// expected number of result messages per site (for the model answer)
-func (c rcase) copies() int {
-	if c.Site == "Collection.Pull" {
-		return 2
-	}
-	return 1
 }
 
 // ---------------------------------------------------------------------------------------------
@@ -317,14 +445,25 @@ func (c rcase) monitor(mon *lib.Monitor, out rout) {
 	if !sensible {
 		return // projection is specified for masks whose paths exist and continue through messages only
 	}
-	want := mt.CanonMsg(specProject(c.decode(), c.Mask))
-	for _, got := range out.Results {
-		if g := mt.CanonMsg(got); g != want {
-			sig := site + "/projection"
+	if isPull(c.Site) && out.Shape != out.Ref {
+		mon.Violate(site+"/events-differ", "a read mask changed which events the subscription delivers", c, out.Ref, out.Shape)
+		return
+	}
+	if len(out.Results) != len(out.Raw) {
+		mon.Violate(site+"/events-differ", "a read mask changed the number of delivered messages", c, fmt.Sprint(len(out.Raw)), fmt.Sprint(len(out.Results)))
+		return
+	}
+	for i, got := range out.Results {
+		want := "nil"
+		if out.Raw[i] != nil {
+			want = mt.CanonMsg(specProject(out.Raw[i], c.Mask))
+		}
+		if g := msgText(got); g != want {
+			sig := site + "/projection/" + out.Roles[i]
 			if prefixOverlap(c.Mask.Paths) {
 				sig = site + "/parent-and-child-paths/projection"
 			}
-			mon.Violate(sig, "the read does not return the projection of the stored message onto the mask", c, want, g)
+			mon.Violate(sig, "the "+out.Roles[i]+" message of the read is not the projection of the stored message onto the mask", c, want, g)
 		}
 	}
 }
@@ -339,7 +478,27 @@ func genCase(g *mt.Gen, site string) rcase {
 	md := r.MD()
 	focus := g.Focus(md, 2+g.R.Intn(4))
 	msg := g.Msg(md, r.New, focus)
+	// one case in six reads through a (populated) repeated message field
+	var repPath string
+	if g.R.Intn(6) == 0 {
+		var reps []protoreflect.FieldDescriptor
+		for i := 0; i < md.Fields().Len(); i++ {
+			if fd := md.Fields().Get(i); fd.IsList() && fd.Message() != nil && fd.Message().Fields().Len() > 0 {
+				reps = append(reps, fd)
+			}
+		}
+		if len(reps) > 0 {
+			fd := reps[g.R.Intn(len(reps))]
+			g.Populate(msg.ProtoReflect(), fd, 2)
+			fs := fd.Message().Fields()
+			repPath = string(fd.Name()) + "." + string(fs.Get(g.R.Intn(fs.Len())).Name())
+		}
+	}
 	c := rcase{Root: r.Name, Site: site, Msg: mt.EncodeMsg(msg), MsgText: mt.CanonMsg(msg), Mask: mt.NilMask()}
+	if isPull(site) {
+		msg2 := g.Msg(md, r.New, focus)
+		c.Msg2, c.Msg2Text = mt.EncodeMsg(msg2), mt.CanonMsg(msg2)
+	}
 	switch x := g.R.Intn(20); {
 	case x == 0: // nil
 	case x == 1:
@@ -349,33 +508,64 @@ func genCase(g *mt.Gen, site string) rcase {
 	default:
 		c.Mask = g.MaskFrom(focus, mt.PathOpts{Corrupt: 0.5})
 	}
+	if repPath != "" && !c.Mask.Nil {
+		c.Mask.Paths = append(c.Mask.Paths, repPath)
+	}
 	return c
 }
 
 func (c rcase) key() string {
-	return strings.Join([]string{c.Root, c.Site, c.Mask.Enc(), c.MsgText}, " ")
+	return strings.Join([]string{c.Root, c.Site, c.Mask.Enc(), c.MsgText, c.Msg2Text}, " ")
 }
 
 func runCases(cases []rcase, tie, spec *lib.Tie, mon *lib.Monitor, drv *lib.Driver) {
+	// the real code first: at the Pull sites the model is asked about every delivered message
+	outs := make([]rout, len(cases))
 	var lines []string
-	for _, c := range cases {
+	for i, c := range cases {
+		outs[i] = c.runCode()
 		ty := schema.ID(rootByName(c.Root).MD())
-		lines = append(lines,
-			"rfilter "+c.Mask.Enc()+" "+c.MsgText,
-			fmt.Sprintf("rvalidate %d %s", ty, c.Mask.Enc()),
-			"project "+c.Mask.Enc()+" "+c.MsgText)
+		lines = append(lines, fmt.Sprintf("rvalidate %d %s", ty, c.Mask.Enc()), "project "+c.Mask.Enc()+" "+c.MsgText)
+		if outs[i].Panic != "" {
+			lines = append(lines, "rfilter "+c.Mask.Enc()+" "+c.MsgText)
+			continue
+		}
+		for _, raw := range outs[i].Raw {
+			if raw != nil {
+				lines = append(lines, "rfilter "+c.Mask.Enc()+" "+mt.CanonMsg(raw))
+			}
+		}
 	}
 	ans, err := drv.Batch(lines)
 	if err != nil {
 		tie.Fail(err)
 		return
 	}
+	k := 0
 	for i, c := range cases {
-		mf, mv, mp := ans[3*i], ans[3*i+1], ans[3*i+2]
-		out := c.runCode()
-		model := mf
-		if mf != "panic" && c.copies() == 2 {
-			model = mf + " " + mf
+		out := outs[i]
+		mv, mp := ans[k], ans[k+1]
+		k += 2
+		var model string
+		if out.Panic != "" {
+			model = ans[k]
+			k++
+		} else {
+			// the model delivers the events of the unmasked run, each message filtered
+			xs := []string{"[" + out.Ref + "]"}
+			for _, raw := range out.Raw {
+				if raw == nil {
+					xs = append(xs, "nil")
+					continue
+				}
+				if ans[k] == "panic" {
+					xs = []string{"panic"}
+				} else if xs[0] != "panic" {
+					xs = append(xs, ans[k])
+				}
+				k++
+			}
+			model = strings.Join(xs, " ")
 		}
 		nontrivial := !c.Mask.Nil && len(c.Mask.Paths) > 0
 		tie.Record(c.key(), nontrivial, c, model+" valid="+mv, out.text()+" valid="+fmt.Sprint(out.Valid))
@@ -385,8 +575,32 @@ func runCases(cases []rcase, tie, spec *lib.Tie, mon *lib.Monitor, drv *lib.Driv
 			tie.Count("outcome:panic")
 		} else {
 			tie.Count("outcome:ok")
+			for _, r := range out.Roles {
+				tie.Count("delivered:" + r)
+			}
 		}
 		tie.Count("valid:" + fmt.Sprint(out.Valid))
+		switch {
+		case c.Mask.Nil:
+			tie.Count("mask:nil")
+		case len(c.Mask.Paths) == 0:
+			tie.Count("mask:empty")
+		default:
+			nested, rep := false, false
+			for _, p := range c.Mask.Paths {
+				pi := mt.Classify(rootByName(c.Root).MD(), p)
+				nested = nested || (strings.Contains(p, ".") && pi.Valid)
+				rep = rep || pi.ThroughList
+			}
+			switch {
+			case rep:
+				tie.Count("mask:through-repeated-message@" + c.Site)
+			case nested:
+				tie.Count("mask:nested@" + c.Site)
+			default:
+				tie.Count("mask:other@" + c.Site)
+			}
+		}
 		// the Go oracle used by the monitor against the Lean specification `project`
 		spec.Record(c.key(), nontrivial, c, mp, mt.CanonMsg(specProject(c.decode(), c.Mask)))
 		mon.Eval(c.key(), nontrivial, nil)
@@ -394,22 +608,39 @@ func runCases(cases []rcase, tie, spec *lib.Tie, mon *lib.Monitor, drv *lib.Driv
 	}
 }
 
+// seededCases: at EVERY site, the mask kinds the property names — nil, empty non-nil, single,
+// nested, through a repeated message, parent+child, unknown, and (synchronous sites only) the
+// continuations that used to panic.
 func seededCases() []rcase {
 	msg := &testproto.TestAllTypes{
-		DefaultInt32:          7,
-		DefaultForeignMessage: &testproto.ForeignMessage{C: 1, D: 2},
-		RepeatedInt32:         []int32{1, 2},
-		MapStringString:       map[string]string{"a": "b"},
+		DefaultInt32:           7,
+		DefaultForeignMessage:  &testproto.ForeignMessage{C: 1, D: 2},
+		RepeatedInt32:          []int32{1, 2},
+		MapStringString:        map[string]string{"a": "b"},
+		RepeatedForeignMessage: []*testproto.ForeignMessage{{C: 1, D: 2}, {D: 3}},
+	}
+	msg2 := &testproto.TestAllTypes{
+		DefaultInt32:          8,
+		DefaultString:         "s",
+		DefaultForeignMessage: &testproto.ForeignMessage{C: 3, D: 4},
+	}
+	ms := []mt.Mask{mt.NilMask(), {Paths: []string{}}}
+	for _, ps := range [][]string{
+		{"default_int32"}, {"default_foreign_message.c"}, {"repeated_foreign_message.c"},
+		{"default_foreign_message", "default_foreign_message.c"}, {"nope"},
+		{"repeated_int32.x"}, {"map_string_string.a"}, {"default_int32.x"},
+	} {
+		ms = append(ms, mt.Mask{Paths: ps})
 	}
 	var out []rcase
 	for _, site := range sites {
-		for _, ps := range [][]string{
-			{"repeated_int32.x"}, {"map_string_string.a"}, {"default_int32.x"},
-			{"default_foreign_message", "default_foreign_message.c"}, {"default_foreign_message.c"}, {"nope"},
-		} {
-			c := rcase{Root: "TestAllTypes", Site: site, Msg: mt.EncodeMsg(msg), MsgText: mt.CanonMsg(msg), Mask: mt.Mask{Paths: ps}}
-			if strings.HasSuffix(site, "Pull") && !c.safe() {
-				continue
+		for _, m := range ms {
+			c := rcase{Root: "TestAllTypes", Site: site, Msg: mt.EncodeMsg(msg), MsgText: mt.CanonMsg(msg), Mask: m}
+			if isPull(site) {
+				c.Msg2, c.Msg2Text = mt.EncodeMsg(msg2), mt.CanonMsg(msg2)
+				if !c.safe() {
+					continue
+				}
 			}
 			out = append(out, c)
 		}
@@ -489,26 +720,27 @@ func main() {
 		lib.Fatal(fmt.Errorf("driver rejected the schema: %q %v", ans, err))
 	}
 	tie := res.Tie("reads", "K1",
-		"random (stored message, read mask) pairs over TestAllTypes and three trait messages at ResponseFilter.FilterClone/Filter/Validate, Value.Get, Collection.Get/List, Value.Pull (seed) and Collection.Pull (seed and the old value of an update; only masks that cannot panic, the filter runs on another goroutine), compared with the Lean model's filter/validate (outcome: panic | returned message(s), plus the validation verdict); masks from the path tree with parents+children, duplicates, nil/empty, and (half of them) corrupted: unknown segment, continuation through scalar / repeated / map, empty segments; non-trivial = non-empty mask; distinct by (site, mask, message)")
+		"random (stored message, read mask[, second message]) cases over TestAllTypes and three trait messages at ResponseFilter.FilterClone/Filter/Validate, Value.Get, Collection.Get/List and four subscription scenarios run with backpressure (deterministic): Value.Pull (seed + 2 updates), Collection.PullID (seed + 2 updates, other ids interleaved), Collection.Pull (seed, UPDATE new+old, ADD, REMOVE by Delete, old and new values of every event) and Collection.Pull with WithInclude (UPDATE that leaves the include set = REMOVE old value, UPDATE that enters = ADD, Delete); every scenario runs once without and once with the mask, and EVERY delivered message (nil ones included) is compared with the Lean model's filter of the unmasked message; event kinds/ids must be equal. Pull scenarios use only masks that cannot panic (the filter runs on another goroutine). Masks from the path tree with parents+children, duplicates, nil/empty, through repeated messages, and (half) corrupted: unknown segment, continuation through scalar / repeated / map, empty segments; at every site a fixed list of mask kinds (nil, empty, single, nested, repeated-message, parent+child, unknown) runs first; non-trivial = non-empty mask; distinct by (site, mask, messages)")
 	spec := res.Tie("projection-oracle", "K1",
 		"the protoreflect projection used as the monitor's oracle against the Lean specification `project` on the same (message, mask) pairs")
 	mon := res.Monitor("read-semantics",
-		"for every case: returned message(s) = independent projection of the stored message onto the mask's path set (masks whose paths exist and continue only through messages; nil = everything, empty = nothing); the stored / passed-in message deep-equals its copy taken before the read; no panic for any mask; Validate rejects exactly the masks with an unknown path or a continuation through a scalar, map or repeated field")
+		"for every case: every returned / delivered message (seed, ADD/UPDATE new and old values, REMOVE old values; nil stays nil) = independent projection of the stored message onto the mask's path set (masks whose paths exist and continue only through messages; nil = everything, empty = nothing); the stored / passed-in message deep-equals its copy taken before the read; no panic for any mask; Validate rejects exactly the masks with an unknown path or a continuation through a scalar, map or repeated field")
 	g := &mt.Gen{R: lib.NewRand(f.Seed)}
 	runCases(seededCases(), tie, spec, mon, drv)
 	n := f.N(6000, 120000)
 	var cases []rcase
 	for i := 0; i < n; i++ {
-		site := sites[i%len(sites)]
-		if strings.HasSuffix(site, "Pull") && i%3 != 0 {
-			site = sites[i%4] // goroutine-backed reads are slower: fewer of them
+		site := sites[i%5]
+		if i%4 == 3 {
+			site = sites[5+(i/4)%4] // a Pull scenario is ~30 store operations: a quarter of the cases
 		}
 		c := genCase(g, site)
-		if strings.HasSuffix(site, "Pull") && !c.safe() {
+		if isPull(site) && !c.safe() {
 			c.Site = "FilterClone"
+			c.Msg2, c.Msg2Text = "", ""
 		}
 		cases = append(cases, c)
-		if len(cases) == 2000 || i == n-1 {
+		if len(cases) == 1000 || i == n-1 {
 			runCases(cases, tie, spec, mon, drv)
 			cases = cases[:0]
 		}
@@ -533,14 +765,14 @@ func replay(f lib.Flags) int {
 		fmt.Println("replay: no concrete input in file (", rp.Kind, rp.Broken, ")")
 		return 2
 	}
-	if strings.HasSuffix(c.Site, "Pull") && !c.safe() {
+	if isPull(c.Site) && !c.safe() {
 		fmt.Println("replay: refusing to drive a goroutine-backed read with a mask that may panic")
 		return 2
 	}
 	m := lib.NewMonitor("replay", "")
 	out := c.runCode()
 	c.monitor(m, out)
-	fmt.Printf("replay %s site=%s mask=%s\n  stored=%s\n  -> %s\n", c.Root, c.Site, c.Mask.Enc(), c.MsgText, out.text())
+	fmt.Printf("replay %s site=%s mask=%s\n  stored=%s\n  second=%s\n  unmasked events [%s]\n  -> %s\n", c.Root, c.Site, c.Mask.Enc(), c.MsgText, c.Msg2Text, out.Ref, out.text())
 	if len(m.Violations) > 0 {
 		for _, v := range m.Violations {
 			fmt.Printf("STILL FAILS %s: %s (expected %s, observed %s)\n", v.Signature, v.What, v.Expected, v.Observed)
